@@ -158,7 +158,7 @@ def _maps_by_position(mg, mf):
     return mo, mi
 
 
-def _solve_pair(mm, gname, nmul, feed, V=1 + 0.5j, twice=False):
+def _solve_pair(mm, gname, nmul, feed, V=1 + 0.5j, twice=False, load=None):
     mg = catalogue.build(mm, gname, nmul=nmul)
     mf = free_space_pair(mm, gname, nmul)
     try:
@@ -176,6 +176,15 @@ def _solve_pair(mm, gname, nmul, feed, V=1 + 0.5j, twice=False):
         mf.register_source(mm.Excitation(V * s), pf)
         qb, sb = mi[feed]
         mf.register_source(mm.Excitation(V * sb), qb)
+    if load is not None:
+        # the same load on the feed pulse as in the symbolic run: Z_L over ground, 2 Z_L on the plane / Z_L on pulse and image in the pair
+        mg.register_load(mm.Impedance_Load(load), feed)
+        if is_gnd(p):
+            mf.register_load(mm.Impedance_Load(2 * load), pf)
+        else:
+            ld = mm.Impedance_Load(load)
+            mf.register_load(ld, pf)
+            mf.register_load(ld, mi[feed][0])
     mg.compute()
     if twice:
         mg.compute()
@@ -183,12 +192,12 @@ def _solve_pair(mm, gname, nmul, feed, V=1 + 0.5j, twice=False):
     return mg, mf, mo, mi
 
 
-def replay_sentence(mm, gname, nmul, feeds=None, twice=False):
+def replay_sentence(mm, gname, nmul, feeds=None, twice=False, load=None):
     """currents / impedances / gain of ground model vs free-space pair, feed on every pulse."""
     zen, azi = mm.Angle(5.0, 20.0, 5), mm.Angle(0.0, 45.0, 8)
     mg0 = catalogue.build(mm, gname, nmul=nmul)
     for feed in (range(len(mg0.pulses)) if feeds is None else feeds):
-        mg, mf, mo, mi = _solve_pair(mm, gname, nmul, feed, twice=twice)
+        mg, mf, mo, mi = _solve_pair(mm, gname, nmul, feed, twice=twice, load=load)
         cond = np.linalg.cond(np.asarray(mf.Z, dtype=complex))
         if cond > 1e5:
             continue
@@ -277,7 +286,7 @@ def rhs_loads(ck, sh, mm, gname):
             return out
 
         def replay(conc, gn, out, feed=feed):
-            return replay_sentence(mm, gname, 1, feeds=[feed])
+            return replay_sentence(mm, gname, 1, feeds=[feed], load=35 + 120j)
         prove_paths(ck, 'rhs-%s-p%d' % (gname, feed + 1), fn, goals, replay, max_paths=4)
 
 
